@@ -58,7 +58,16 @@ class Lifted:
     """R17 closure lifting: the `nth` closure literal (`&mut |params| { BODY }`) inside function (file, scope, name) is emitted as
     a standalone function `sig { BODY' }`, where BODY' is BODY with its final continuation call `cont(args)` replaced by
     `Ok((args))` - i.e. the function returns what the closure would hand to the continuation.  The captured variables
-    become parameters (listed in `sig`, hand-written); everything else is the closure's own text after R1..R13."""
+    become parameters (listed in `sig`, hand-written); everything else is the closure's own text after R1..R13.
+
+    Opt-in, set after construction (unit ptlookup): `rules = ('R31',)` (Result::inspect -> its definition, extract.r31_result_inspect),
+    `body_resub = [(regex, replacement, why)]` (logged ABSTRACT rule, exactly one match), `ghost_token = dict(arg=, callees=[..])`
+    (R23 on the closure's text; the token parameter itself is written in `sig`), `cont_param = 'name'` (R17', extract.r17_cont_as_param:
+    the continuation is not the final expression; its result becomes the parameter `name` of the lifted function)."""
+    rules = ()
+    body_resub = ()
+    ghost_token = None
+    cont_param = None
 
     def __init__(self, file, scope, name, nth, sig, cont, requires=(), ensures=(), splices=(), props=(), canary=False, key=None):
         self.file, self.scope, self.name, self.nth, self.sig, self.cont = file, scope, name, nth, sig, cont
